@@ -129,5 +129,93 @@ theorem modify_inv {c c' : Ctx} {bidder : Acc} {aid bidId : Nat} {price : Dec} {
     obtain ⟨_, h, _⟩ := h
     exact h.elim
 
+theorem modify_accept_of_ok {c c' : Ctx} {bidder : Acc} {aid bidId : Nat} {price : Dec} {denom : Denom}
+    {amt : Int} (hwf : WF c.s) (hnn : BankNonneg c.s)
+    (h : deliver c (.modify bidder aid bidId price denom amt) = .ok c') :
+    AcceptModify c.s bidder aid bidId price denom amt := by
+  obtain ⟨⟨v1, v2, v3, v4⟩, v, hv, hst, hty, b, hfind, h1, h2, h3, h4, h5, h6, D, hD, hD0, hDc, _⟩ :=
+    modify_inv hwf h
+  refine ⟨v1, v2, ⟨v3, v4⟩, v, hv, hst, hty, b, hfind, h1, h2, h3, h4, h5, h6, ?_⟩
+  show ({ b with price := price, amt := amt } : Bid).toPaying v.a.payDenom - b.toPaying v.a.payDenom
+    ≤ c.s.bank (.user bidder) v.a.payDenom
+  rw [← hD]
+  by_cases hp : 0 < D
+  · exact hDc hp
+  · have := hnn (.user bidder) v.a.payDenom
+    omega
+
+theorem modify_ok_of_accept {c : Ctx} {bidder : Acc} {aid bidId : Nat} {price : Dec} {denom : Denom}
+    {amt : Int} (hwf : WF c.s) (hf : c.ctl.failhook = none) (hk : c.ctl.fault = none)
+    (ha : AcceptModify c.s bidder aid bidId price denom amt) :
+    ∃ c', deliver c (.modify bidder aid bidId price denom amt) = .ok c' := by
+  obtain ⟨v1, v2, ⟨v3, v4⟩, v, hv, hst, hty, bid, hfind, h1, h2, h3, h4, h5, h6, hfunds⟩ := ha
+  have hfunds : ({ bid with price := price, amt := amt } : Bid).toPaying v.a.payDenom
+      - bid.toPaying v.a.payDenom ≤ c.s.bank (.user bidder) v.a.payDenom := hfunds
+  have hW := hwf.views aid v hv
+  have hmem : bid ∈ v.bids := List.mem_of_find?_eq_some hfind
+  have hB := hW.bids bid hmem
+  have hbp := hB.price
+  have hba := hB.amt
+  have hvb : validateBasic (.modify bidder aid bidId price denom amt) = true := by
+    simp only [validateBasic, validCoin, Bool.and_eq_true, decide_eq_true_eq]
+    exact ⟨⟨⟨v1, v2⟩, v3, by omega⟩, v4⟩
+  unfold deliver
+  rw [bind_of_ok (check_of hvb)]
+  show ∃ c', modifyBid c bidder aid bidId price denom amt = .ok c'
+  unfold modifyBid
+  rw [bind_of_ok (view_ok_iff.mpr hv), bind_of_ok (check_of (by simp [hst])),
+    bind_of_ok (check_of (by simp [hty]))]
+  simp only [hfind, pure_bind]
+  rw [bind_of_ok (check_of (by simp [h1])),
+    bind_of_ok (check_of (by
+      simp only [Bool.not_eq_true', decide_eq_false_iff_not]; unfold Dec at *; omega)),
+    bind_of_ok (check_of (by simp [h3])),
+    bind_of_ok (check_of (by
+      simp only [Bool.not_eq_true', Bool.or_eq_false_iff, decide_eq_false_iff_not]
+      unfold Dec at *; omega)),
+    bind_of_ok (check_of (by
+      simp only [Bool.not_eq_true', Bool.and_eq_false_iff, decide_eq_false_iff_not]
+      unfold Dec at *; omega))]
+  have fin : ∀ (c1 : Ctx) (n : String) (args : List String) (g : Ctx → Ctx), c1.ctl = c.ctl →
+      ∃ c', (c1.hook n args >>= fun c2 => (pure (g c2) : M Ctx)) = .ok c' := by
+    intro c1 n args g hc1
+    refine exists_hook_bind (by rw [hc1]; exact hf) ?_
+    intro c3 _ _
+    exact ⟨_, rfl⟩
+  cases hbt : bid.type with
+  | worth =>
+    simp only [hbt]
+    have hden : bid.denom = v.a.payDenom := by
+      rcases hB.batch hty with ⟨_, q⟩ | ⟨q, _⟩
+      · exact q
+      · rw [hbt] at q; cases q
+    have hdp : denom = v.a.payDenom := h3.symm.trans hden
+    rw [diff_worth bid _ price amt hden, ← hdp] at hfunds
+    by_cases hpos : amt - bid.amt > 0
+    · rw [if_pos hpos]
+      obtain ⟨c1, hc1, hctl⟩ := exists_send_single .send (.pay aid) hk hfunds
+      rw [bind_of_ok hc1]
+      exact fin c1 _ _ _ hctl
+    · rw [if_neg hpos]
+      simp only [pure_bind]
+      exact fin c _ _ _ rfl
+  | many =>
+    simp only [hbt]
+    have hden : bid.denom ≠ v.a.payDenom := by
+      rcases hB.batch hty with ⟨q, _⟩ | ⟨_, q⟩
+      · rw [hbt] at q; cases q
+      · rw [q]; exact hW.auction.denomNe
+    have hnn := diff_many_nonneg bid price amt hba hbp h4 h5
+    rw [diff_many bid _ price amt hden] at hfunds
+    rw [if_neg (by omega)]
+    split
+    · obtain ⟨c1, hc1, hctl⟩ := exists_send_single .send (.pay aid) hk hfunds
+      rw [bind_of_ok hc1]
+      exact fin c1 _ _ _ hctl
+    · simp only [pure_bind]
+      exact fin c _ _ _ rfl
+  | fixed =>
+    rcases hB.batch hty with ⟨q, _⟩ | ⟨q, _⟩ <;> (rw [hbt] at q; cases q)
+
 end AcceptAux
 end Fundraising
